@@ -670,7 +670,7 @@ PROPS = {
         "module": "DnsModel.Theorems.C03",
         "theorems": ["Dns.C03.accepted_layout", "Dns.C03.walks_faithful", "Dns.C03.no_opt_outside_additional", "Dns.C03.question_walk",
                      "Dns.C03.accessors", "Dns.C03.ip_accessor", "Dns.C03.data_accessor", "Dns.C03.layout_full",
-                     "Dns.C03.edns_walk", "Dns.C03.current_section", "Dns.C03.source_reader_tie"],
+                     "Dns.C03.edns_walk", "Dns.C03.current_section", "Dns.C03.source_reader_tie", "Dns.C03.source_name_text"],
         "families": [{"name": "script-mixed-steps", "quick": 0, "thorough": 0, "fixed": True}, {"name": "iter-boundary", "quick": 0, "thorough": 0, "fixed": True}, {"name": "iter", "quick": 3000, "thorough": 150000}, {"name": "iter-damaged", "quick": 3000, "thorough": 100000}],
         "oracle": oracle_c03x,
         "nontrivial": nontrivial_accepted,
